@@ -48,16 +48,14 @@ Proof. exact xt_reorder_idempotent. Qed.
 Check C19_reorder_idempotent : forall a, xt_reorder (xt_reorder a) = xt_reorder a.
 Print Assumptions C19_reorder_idempotent.
 
-(* Stability under a second round.  Full statement:  xb_from_ast s a = (d, []) -> xb_from_ast s (xt_doc d) = (d, []).
-   Proved: if the second build records no error either, it prints to the same AST again.
-   Missing: that the second build records no error and gives the very same typed document (it does on
-   every generated case: the oracle of c19.rs compares the re-parsed document with `==`). *)
-Theorem C19_second_round_partial : forall s a d d2,
-  xs_closed s -> xb_from_ast s a = (d, []) -> xb_from_ast s (xt_doc d) = (d2, []) -> xt_doc d2 = xt_doc d.
-Proof. intros s a d d2. exact (xb_second_round s true a d d2). Qed.
-Check C19_second_round_partial : forall s a d d2,
-  xs_closed s -> xb_from_ast s a = (d, []) -> xb_from_ast s (xt_doc d) = (d2, []) -> xt_doc d2 = xt_doc d.
-Print Assumptions C19_second_round_partial.
+(* Stability under a second round: building the printed AST again records no error and gives the very same
+   typed document (hence the same AST once more, by C19_to_ast_left_inverse and C19_reorder_idempotent). *)
+Theorem C19_second_round : forall s a d,
+  xs_closed s -> xb_from_ast s a = (d, []) -> xb_from_ast s (xt_doc d) = (d, []).
+Proof. intros s a d. exact (xb_second_round_full s true a d). Qed.
+Check C19_second_round : forall s a d,
+  xs_closed s -> xb_from_ast s a = (d, []) -> xb_from_ast s (xt_doc d) = (d, []).
+Print Assumptions C19_second_round.
 
 (* ---- non-vacuity: fragment before the operations, a named operation, inline fragments with and without
    type condition; the document is stored (and printed) operations first *)
